@@ -24,7 +24,7 @@ ASSUMPTIONS = [
 ]
 CASES = {"quick": 2500, "thorough": 50000}
 MIN_CASES = {"quick": 600, "thorough": 10000}
-REQUIRED_COUNTERS = ["ratios_compared", "membership_judged", "fixed_cells_checked", "module_areas_compared", "squares_checked",
+REQUIRED_COUNTERS = ["hard_modules_relocated_before_allocation", "ratios_compared", "membership_judged", "fixed_cells_checked", "module_areas_compared", "squares_checked",
                      "refine:none", "refine:split", "refine:grid", "zero:on", "zero:off", "full_cover_cells"]
 
 
@@ -45,7 +45,14 @@ def generate(rng, tier, i):
     else:
         ref = ["none"]
     slim = {k: d[k] for k in ("fam", "W", "H", "regions", "fixed", "struct")}
-    return {"cls": ref[0], "die": slim, "netlist": doc, "refine": ref, "zero": rng.random() < 0.3}
+    # a third of the cases relocate the movable hard modules after loading (centre + recenter_rectangles, as the placement
+    # tools do between iterations): the allocation must reflect where the rectangles ARE, not where they were when loaded
+    move = {}
+    if rng.random() < 0.35:
+        for name, m in doc["Modules"].items():
+            if m.get("hard") is True:
+                move[name] = [rng.choice([-1, 1, 2, 0.5]) * float(d["W"]) / max(d["nx"], 1), rng.choice([0, 1, -0.5]) * float(d["H"]) / max(d["ny"], 1)]
+    return {"cls": ref[0], "die": slim, "netlist": doc, "refine": ref, "zero": rng.random() < 0.3, "move": move}
 
 
 def directed():
@@ -53,6 +60,8 @@ def directed():
         # ratio rounds to 1.0000000000000002 (module covering a whole decimal cell): the constructor assertion aborted the call
         {"cls": "directed_ratio_above_one", "die": {"fam": "dec_0.1", "W": 0.8, "H": 0.6, "regions": [[0.6, 0.1, 0.4, 0.2, "#"]], "fixed": {}, "struct": "directed"},
          "netlist": {"Modules": {"S1": {"area": 0.113, "center": [0.76, 0.33]}}, "Nets": []}, "refine": ["split", 2, 16], "zero": False},
+        {"cls": "directed_moved_hard", "die": {"fam": "int", "W": 8.0, "H": 4.0, "regions": [], "fixed": {}, "struct": "directed"},
+         "netlist": {"Modules": {"H0": {"hard": True, "rectangles": [[1.0, 1.0, 2.0, 2.0], [2.5, 1.0, 1.0, 1.0]]}}, "Nets": []}, "refine": ["grid", 2, 4], "zero": False, "move": {"H0": [4.0, 2.0]}},
         {"cls": "directed_ratio_above_one", "die": {"fam": "dec_0.1", "W": 0.3, "H": 0.3, "regions": [], "fixed": {}, "struct": "directed"},
          "netlist": {"Modules": {"S1": {"area": 0.09, "rectangles": [[0.15, 0.15, 0.3, 0.3]]}}, "Nets": []}, "refine": ["grid", 3, 3], "zero": False},
     ]
@@ -79,6 +88,14 @@ def check(case, ctx):
         return
     die, nl = res
     ctx.count("refine:" + case["refine"][0])
+    if case.get("move"):
+        from frame.geometry.geometry import Point
+        for m in nl.modules:
+            if m.name in case["move"] and m.is_hard and not m.is_fixed and m.center is not None:
+                dx, dy = case["move"][m.name]
+                m.center = Point(max(m.center.x + dx, 0.0), max(m.center.y + dy, 0.0))
+                m.recenter_rectangles()
+                ctx.count("hard_modules_relocated_before_allocation")
     refinable = die.specialized_regions + die.ground_regions
     fixed_regions = die.fixed_regions
     if not refinable and not fixed_regions:
